@@ -1,5 +1,5 @@
 (* C03 - Stored configuration is the gNMI-sequential effect of acknowledged Sets.
-   Statements only; proofs live in Proofs/MergeProofs.v, PathProofs.v, PruneProofs.v, StoreProofs.v, CommitProofs.v,
+   Statements only; proofs live in Proofs/MergeProofs.v, TextPathProofs.v, PruneProofs.v, StoreProofs.v, CommitProofs.v,
    CommitExample.v, MergeRefute.v, WildcardProofs.v, and (histories, abstraction) StoreFullProofs.v, CommitPreserve.v,
    CommitHistory.v, CommitHistoryEx.v, PathAbstraction.v, PathAbstractionC16.v, GnmiHistory.v, GnmiHistoryEx.v,
    (wildcards) WildcardElements.v, GnmiGet.v, GnmiGetEx.v, (reader's view) CfgViewProofs.v.
@@ -53,7 +53,7 @@
 From Coq Require Import List NArith Bool Permutation String.
 Local Open Scope string_scope.
 From OC Require Import Base.Bytes Model.Merge Model.CfgStore Model.Wildcard Model.Path Spec.Gnmi
-     Proofs.MergeProofs Proofs.PathProofs Proofs.CommitProofs Proofs.CommitExample Proofs.MergeRefute Proofs.WildcardProofs
+     Proofs.MergeProofs Proofs.TextPathProofs Proofs.CommitProofs Proofs.CommitExample Proofs.MergeRefute Proofs.WildcardProofs
      Proofs.CommitPreserve Proofs.CommitHistory Proofs.CommitHistoryEx
      Proofs.PathAbstraction Proofs.PathAbstractionC16 Proofs.GnmiHistory Proofs.GnmiHistoryEx
      Proofs.WildcardElements Proofs.GnmiGet Proofs.GnmiGetEx Proofs.CfgViewProofs.
